@@ -271,6 +271,7 @@ func (f *Composite) Marshal(v interface{}) error {
 
 		err := messageField.Marshal(dataField.Interface())
 		if err != nil {
+			f.discardFailedWrite(indexTag.Tag)
 			return fmt.Errorf("marshalling field %s: %w", indexTag.Tag, err)
 		}
 
@@ -431,6 +432,7 @@ func (f *Composite) UnmarshalJSON(b []byte) error {
 		}
 
 		if err := json.Unmarshal(rawMsg, subfield); err != nil {
+			f.discardFailedWrite(tag)
 			return utils.NewSafeErrorf(err, "failed to unmarshal subfield %v", tag)
 		}
 
@@ -735,6 +737,16 @@ func (m *Composite) unsetSubfield(id string) {
 
 	// we should re-create the subfield to reset its value (and its subfields)
 	m.subfields[id] = CreateSubfield(m.Spec().Subfields[id])
+}
+
+// discardFailedWrite re-creates a subfield that is not set after a write into
+// it failed part way (a nested composite keeps the subfields written before
+// the failure), so that nothing of the failed write comes back when the
+// subfield is populated later. It assumes that the mutex is already locked.
+func (m *Composite) discardFailedWrite(id string) {
+	if _, ok := m.setSubfields[id]; !ok {
+		m.unsetSubfield(id)
+	}
 }
 
 // UnsetSubfields marks multiple subfields identified by their paths as not set and
